@@ -17,11 +17,11 @@ static const profile_t PROFILES[] = {
       (1u << A_STOP) | (1u << A_DEREG) | (1u << A_PAUSE) | (1u << A_QUIT) | (1u << A_TELL), 0xf, 0, 0 },
     { "C02", 2, G_LIFE | G_MSG | G_SUB | G_BCAST | G_AUTOFREE | G_QUIT | G_FAULT,           RL_BASE | R_PS | R_FREE,            1, "01000100" "07000100" "07010100" "04000000", 1, 0, 1,
       0, 0, (1u << P_T) | (1u << P_RT) | (1u << P_DOT), (1u << T_T) | (1u << T_TX) | (1u << T_U) },
-    { "C07", 2, G_CTX | G_REG | G_LIFE | G_REFS | G_ILLEGAL | G_CTXCALL | G_QUIT | G_ARM,  RL_BASE | R_EV,                     1, "", 1, 0, 1 | 4,
+    { "C07", 2, G_CTX | G_REG | G_LIFE | G_REFS | G_ILLEGAL | G_CTXCALL | G_QUIT | G_ARM,  RL_BASE | R_EV,                     1, "", 1, 0, 1 | 4 | 0x80,
       (1u << A_DEREG) | (1u << A_CTXCALL), (1u << CB_START) | (1u << CB_STOP) | (1u << CB_EVT), 0, 0 },
     { "C08", 2, G_LIFE | G_MSG | G_SUB | G_PRIO | G_BCAST | G_PILL | G_QUIT | G_BATCH,               RL_BASE | R_PS | R_FIFO | R_PILL,   0, "01000100" "07000100" "07010100" "04000000", 1, 0, 1,
       0, 0, (1u << P_T) | (1u << P_MOD_STOPPED), (1u << T_T) },
-    { "C15", 2, G_REG | G_LIFE | G_MSG | G_SUB | G_PILL | G_ARM | G_ILLEGAL | G_QUIT,       RL_BASE | R_PS | R_NM,              1, "01000100", 1, 0, 0x7f,
+    { "C15", 2, G_REG | G_LIFE | G_MSG | G_SUB | G_PILL | G_ARM | G_ILLEGAL | G_QUIT,       RL_BASE | R_PS | R_NM,              1, "01000100", 1, 0, 0xff,
       (1u << A_CTXCALL) | (1u << A_PUB) | (1u << A_SUB) | (1u << A_TELL), 0xf, (1u << P_T), (1u << T_T) | (1u << T_MOD_STARTED) | (1u << T_CTX_TICK) },
     { "C16", 2, G_MSG | G_STASH | G_ARM | G_LIFE | G_BECOME | G_SUB | G_PRIO | G_SRC | G_READY, RL_BASE | R_PS | R_SH | R_HD,     3, "01000100" "07000100" "07010100" "04000000", 1, 0, 1,
       (1u << A_STASH) | (1u << A_UNSTASH), (1u << CB_EVT), (1u << P_T), (1u << T_T), (1u << K_FD), 1 },
@@ -181,6 +181,7 @@ static void world_atexit(void) {
     rmdir(base);
 }
 int main(int argc, char **argv) {
+    BADFD = open("/proc/self/exe", O_RDONLY | O_CLOEXEC);
     main_pid = getpid();
     const char *replay = NULL, *fmt = NULL; int worker = 0, probe = -2;
     for (int i = 1; i < argc; i++) {
